@@ -1,1 +1,7 @@
+// The repository's own crate root, compiled unmodified from the working tree (RBP_SRC=/repo/src),
+// with the crate `rayon` resolved to the controlled-scheduler model in ../rayon-sched.
+#![allow(dead_code, unused_imports, clippy::all)]
+include!(concat!(env!("RBP_SRC"), "/main.rs"));
 
+#[path = "sched_driver.rs"]
+pub mod sched_driver;
